@@ -19,6 +19,7 @@ SCHEMA = f'''<xs:schema {XS} targetNamespace="urn:t" xmlns:t="urn:t" elementForm
       <xs:element name="name" type="xs:token"/><xs:element name="qty" type="xs:positiveInteger" minOccurs="0"/>
       <xs:element name="price" type="xs:decimal" minOccurs="0"/><xs:element name="flag" type="xs:boolean" minOccurs="0"/>
       <xs:element name="when" type="xs:date" minOccurs="0"/><xs:element name="codes" minOccurs="0"><xs:simpleType><xs:list itemType="xs:int"/></xs:simpleType></xs:element>
+      <xs:element name="days" minOccurs="0"><xs:simpleType><xs:list itemType="xs:date"/></xs:simpleType></xs:element>
       <xs:element name="pt" type="t:pt3" minOccurs="0"/><xs:element name="c3" type="t:code3" minOccurs="0"/>
       <xs:element name="tags" type="t:ints" minOccurs="0" maxOccurs="unbounded"/>
       <xs:element name="note" minOccurs="0" maxOccurs="2"><xs:complexType><xs:simpleContent><xs:extension base="xs:string"><xs:attribute name="lang" type="xs:language"/></xs:extension></xs:simpleContent></xs:complexType></xs:element>
@@ -29,7 +30,7 @@ SCHEMA = f'''<xs:schema {XS} targetNamespace="urn:t" xmlns:t="urn:t" elementForm
       <xs:element name="mix" minOccurs="0"><xs:complexType mixed="true"><xs:sequence><xs:element name="b" minOccurs="0" maxOccurs="unbounded"><xs:complexType><xs:simpleContent><xs:extension base="xs:string"><xs:attribute name="k" type="xs:int"/></xs:extension></xs:simpleContent></xs:complexType></xs:element></xs:sequence></xs:complexType></xs:element>
       <xs:element name="end" type="xs:token"/>
       <xs:element name="u" type="xs:string" form="unqualified" minOccurs="0"/>
-     </xs:sequence><xs:attribute name="id" type="xs:ID" use="required"/><xs:attribute name="w" type="xs:double"/><xs:attribute name="ver" type="xs:int" fixed="2"/></xs:complexType></xs:element>
+     </xs:sequence><xs:attribute name="id" type="xs:ID" use="required"/><xs:attribute name="w" type="xs:double"/><xs:attribute name="gaps"><xs:simpleType><xs:list itemType="xs:duration"/></xs:simpleType></xs:attribute><xs:attribute name="ver" type="xs:int" fixed="2"/></xs:complexType></xs:element>
   </xs:sequence></xs:complexType></xs:element></xs:schema>'''
 NS = {'t': 'urn:t'}
 _S = {}
@@ -44,6 +45,7 @@ def gen(rng):
         if rng.random() < .5: parts.append(f'<t:flag>{rng.choice(["true", "0", "1", "false"])}</t:flag>')
         if rng.random() < .5: parts.append(f'<t:when>{rng.choice(["2020-02-29", "1999-12-31Z", "2001-01-01+05:00"])}</t:when>')
         if rng.random() < .5: parts.append(f'<t:codes>{rng.choice(["1 2 3", "", "7"])}</t:codes>')
+        if rng.random() < .5: parts.append(f'<t:days>{rng.choice(["2024-04-01 2024-04-25 2024-05-01", "2020-02-29", "", "1999-12-31Z 2000-01-01Z"])}</t:days>')      # lists of values that decode to their lexical form, item by item
         if rng.random() < .5: parts.append(f'<t:pt>{rng.choice(["1 2 3", "0 0 9"])}</t:pt>')       # pattern facets on a list and on typed (non-string) values: enforced on encode as on decode
         if rng.random() < .5: parts.append(f'<t:c3>{rng.choice(["123", "450"])}</t:c3>')
         for _ in range(rng.randrange(0, 4) if rng.random() < .5 else 0): parts.append(f'<t:tags>{rng.choice(["", "1 2", "7", ""])}</t:tags>')      # repeated list-typed element, empty occurrences included
@@ -57,7 +59,7 @@ def gen(rng):
             parts.append('<mix xmlns="urn:t">' + rng.choice(['', 'x']) + '<b k="1" xmlns:q="urn:q">y</b><b>w</b></mix>')
         parts.append('<t:end>e</t:end>')
         if rng.random() < .4: parts.append('<u>plain</u>')        # a required particle after the optional ones: data truncated before an optional particle is incomplete
-        w = rng.choice(['', ' w="1.5"', ' w="INF"', ' w="1e3"']) + rng.choice([' ver="2"', ' ver="02"'])       # an attribute with a fixed value, always present (an absent one is filled in by decoding), in two lexical forms
+        w = rng.choice(['', ' w="1.5"', ' w="INF"', ' w="1e3"']) + rng.choice(['', '', ' gaps="P1D PT2H"', ' gaps="P1Y"']) + rng.choice([' ver="2"', ' ver="02"'])       # an attribute with a fixed value, always present (an absent one is filled in by decoding), in two lexical forms
         items.append(f'<t:item id="i{i}"{w}>' + ''.join(parts) + '</t:item>')
     return '<t:r xmlns:t="urn:t">' + ''.join(items) + '</t:r>'
 
